@@ -44,6 +44,17 @@ def child(out_npz):
         fn = ks._numint.nr_uks if unres else ks._numint.nr_rks
         n_, e_, v_ = fn(mol, ks.grids, ks.xc, dm)
         res[name] = np.concatenate([np.ravel(n_), [e_], np.ravel(v_)])
+    # generally contracted basis (shells with NCTR > 1 take their own branches in the SDMX / NLDF shell loops)
+    molc = M.make_mol("H2O", basis="cc-pvdz")
+    for name, cfg, unres in (
+        ("e2e_ccpvdz_vj_g1", {"sl": "npa", "nldf": "j", "sdmx": "G1", "plan": "gaussian", "interp": "onsite_direct", "eval": "rbf", "mode": "SEP", "mix": "xmix_c"}, True),
+        ("e2e_ccpvdz_sdmx", {"sl": "npa", "nldf": "none", "sdmx": "G", "plan": "gaussian", "interp": "onsite_direct", "eval": "rbf", "mode": "SEP", "mix": "xmix"}, False),
+    ):
+        ks = e2e.make_session(cfg, molc, unres, 3)
+        dm = e2e.random_dms(molc, np.random.default_rng(7), unres)
+        fn = ks._numint.nr_uks if unres else ks._numint.nr_rks
+        n_, e_, v_ = fn(molc, ks.grids, ks.xc, dm)
+        res[name] = np.concatenate([np.ravel(n_), [e_], np.ravel(v_)])
     # tiny grid: fewer points than threads
     he = M.make_mol("He")
     ks = e2e.make_session({"sl": "npa", "nldf": "ij", "sdmx": "SDMX", "plan": "gaussian", "interp": "onsite_direct", "eval": "rbf", "mode": "SEP", "mix": "xmix"},
